@@ -41,6 +41,11 @@ def run(R, ctx):
     consumer_loops(R, ctx)
     join_under_handle_lock(R, ctx)
     clone_drop(R, ctx)
+    # records accepted before a rotation sit in the old BufWriter until the swap drops (= flushes) it: the swap precedes the cleanup, which may
+    # compress and remove the file those records belong to (shared with R01.4)
+    R.rule('R04.6', 'rotation: the old writer is flushed by the swap before the cleanup may remove its file (shared with R01.4)')
+    import c01 as _c01
+    _c01.swap_rules(Relabel(R, {'R01.4': 'R04.6'}), ctx)
     leaks = [(p_, n_) for p_, es in ctx.cg.ext.items() for (n_, bb, t) in es if re.search(r'^std::mem::forget$|ManuallyDrop::<T>::new$|Box::<T(, A)?>::leak$', n_)]
     R.check('R04.3', 'no-forget-or-leak', not leaks, "no mem::forget / ManuallyDrop / Box::leak", f"{leaks[:2]}: a leaked writer is never flushed", where=None)
 
